@@ -43,7 +43,8 @@ def cases(tier, seed):
         fam = gen.pick(rng, ["qp_quartic", "qp_softplus", "rosenbrock", "qp", "rosenbrock", "qp_quartic"])
         yield {"kind": "traj", "problem": {"family": fam, "n": int(rng.integers(1, 9)), "seed": int(rng.integers(0, 2**31 - 1)),
                                            "cond": float(np.exp(rng.uniform(0, np.log(1e3)))), "box": "none", "start": "interior"},
-               "maxcor": int(rng.integers(1, 9)), "x0scale": float(gen.pick(rng, [0.5, 1.0, 2.0])), "hostile": bool(i % 3 == 0)}
+               "maxcor": int(rng.integers(1, 9)), "x0scale": float(gen.pick(rng, [0.5, 1.0, 2.0])), "hostile": bool(i % 3 == 0),
+               "fscale": float(10.0 ** rng.uniform(0, 13)) if i % 5 == 1 else 1.0, "prior_is_x0": bool(i % 7 == 2)}
     npb = 160 if tier == "quick" else 4000
     for i in range(npb):
         yield {"kind": "probe", "rho": float(gen.pick(rng, [2e-4, 5e-4, 8e-4, 1.3e-3, 2e-3, 5e-3])), "sigma": float(gen.pick(rng, [0.6, 0.8, 0.95])),
@@ -82,7 +83,7 @@ def scipy_trace(f, g, x0, maxcor, maxiter=12, bounds=None, gtol=1e-14):
     return pts, vals, res
 
 
-def port_trace(f, g, x0, maxcor, maxiter=12, hostile=False):
+def port_trace(f, g, x0, maxcor, maxiter=12, hostile=False, x0_same_object=False):
     """Runs the port with interception of its line searches; returns (points, searches).
     hostile: the user's gradient is written into one reused work array (as many simulation codes do)."""
     import lbfgsb.main as M
@@ -148,7 +149,7 @@ def port_trace(f, g, x0, maxcor, maxiter=12, hostile=False):
                 gbuf["b"][:] = v
                 return gbuf["b"]
 
-            res = minimize_lbfgsb(x0=np.array(x0, copy=True), fun=fun, jac=jac, maxcor=maxcor, ftol=0.0,
+            res = minimize_lbfgsb(x0=(x0 if x0_same_object else np.array(x0, copy=True)), fun=fun, jac=jac, maxcor=maxcor, ftol=0.0,
                                   gtol=1e-14, maxiter=maxiter)
     finally:
         np.seterr(**old)
@@ -261,10 +262,30 @@ def run(spec):
             x0 = x0 + 3.0 / max(np.linalg.norm(x0), 1e-3) * x0 + 1.0
         name = f"{P.spec['family']} n={P.n} maxcor={spec['maxcor']}"
         tags = dict(family=P.spec["family"], kind="traj")
-        ppts, searches, pres, consts, ic = port_trace(P.f, P.g, x0, spec["maxcor"], hostile=bool(spec.get("hostile")))
+        w = float(spec.get("fscale", 1.0))
+        fobj, gobj = P.f, P.g
+        if w != 1.0:
+            # heavily weighted objective (e.g. a least-squares weight of 1e12): same algorithm, other units
+            out.count("trajectories_with_weighted_objective")
+            fobj, gobj = (lambda z: w * P.f(z)), (lambda z: w * P.g(z))
+        x0_port = np.array(x0, copy=True)
+        if spec.get("prior_is_x0"):
+            # regularisation towards the initial guess, the prior being kept BY REFERENCE: the very array handed over as x0
+            out.count("trajectories_whose_objective_refers_to_the_x0_array")
+            lam = 0.5
+            fbase, gbase = fobj, gobj
+            prior_port = x0_port
+            prior_ref = np.array(x0, copy=True)
+            fobj = lambda z: fbase(z) + 0.5 * lam * float((z - prior_port) @ (z - prior_port))
+            gobj = lambda z: gbase(z) + lam * (z - prior_port)
+            fref = lambda z: fbase(z) + 0.5 * lam * float((z - prior_ref) @ (z - prior_ref))
+            gref = lambda z: gbase(z) + lam * (z - prior_ref)
+        else:
+            fref, gref = fobj, gobj
+        ppts, searches, pres, consts, ic = port_trace(fobj, gobj, x0_port, spec["maxcor"], hostile=bool(spec.get("hostile")), x0_same_object=bool(spec.get("prior_is_x0")))
         if spec.get("hostile"):
             out.count("trajectories_with_reused_gradient_buffer")
-        spts, svals, sres = scipy_trace(P.f, P.g, x0, spec["maxcor"])
+        spts, svals, sres = scipy_trace(fref, gref, x0, spec["maxcor"])
         out.count("trajectories")
         ncomp, multi, why = compare_traces(out, name, ppts, searches, spts, svals, tags, maxcor=spec["maxcor"],
                                            skipped_at=consts["skipped_updates_at_eval"])
